@@ -193,7 +193,7 @@ theorem lookup_partials_spec (db : DB) (hk : (db.versions.map (·.1)).Nodup) (ri
 theorem lookup_partials_of_inv {db : DB} {S : Spec} (h : Inv db S) : (db.versions.map (·.1)).Nodup := h.v.nodup
 
 -- non-vacuity: entity 1 in datasets 2 and 3; at instant 25 the lookup merges version 20 of dataset 2 and nothing of dataset 3 (deleted there)
-example : let a : Ent := ⟨1, false, [], "1"⟩; let b : Ent := ⟨1, false, [], "2"⟩; let d : Ent := ⟨1, true, [], "2"⟩
+example : let a : Ent := ⟨1, false, [], "1", []⟩; let b : Ent := ⟨1, false, [], "2", []⟩; let d : Ent := ⟨1, true, [], "2", []⟩
     let db := storeBatch (storeBatch (storeBatch (storeBatch {} 2 10 [a]) 2 20 [b]) 3 15 [a]) 3 22 [d]
     (partialsAt db 1 25 []).1.map (·.1.t) = [20] ∧ (partialsAt db 1 21 []).1.map (·.1.t) = [20, 15] ∧ (partialsAt db 1 25 []).2 = true := by decide
 
@@ -213,7 +213,7 @@ theorem facts_shape :
     ∧ txnSteps = ["sort.Strings", "dataset.(*Dataset).WriteLock.Lock", "time.Now().UnixNano", "ds.StoreEntitiesWithTransaction", "s.commitIDTxn", "txn.Commit", "ds.(*Dataset).updateDataset"] := by decide
 
 -- non-vacuity: a batch with a repeated id, an identical re-post, and a delete/un-delete flip
-example : let e : Ent := ⟨1, false, [], "a"⟩; let d : Ent := ⟨1, true, [], "a"⟩
+example : let e : Ent := ⟨1, false, [], "a", []⟩; let d : Ent := ⟨1, true, [], "a", []⟩
     let db := storeBatch (storeBatch {} 2 10 [e, e, d]) 2 20 [d, e]
     (listAll db 2) = [(1, e)] ∧ db.versions.length = 3 ∧ (listPage db 2 none 1).2 = some 1
     ∧ (listPage db 2 (some 1) 1) = ([], some 1) := by decide
